@@ -18,3 +18,45 @@ Lemma gen_wiring_Slice__assemble_vector :
       "subtrahend_idxs"]] []))) [(["subtotal"], WVar "subtotals", [])]] []]] []) [WVar "order"]]
       [("diffs_nan", WFalse)]).
 Proof. reflexivity. Qed.
+
+(* BaseSecondOrderMeasure.blocks *)
+Lemma gen_wiring_BaseSecondOrderMeasure_blocks :
+  wsrc_BaseSecondOrderMeasure_blocks = Some (WList [WList [WSelf "_base_values"; WSelf
+      "_subtotal_columns"]; WList [WSelf "_subtotal_rows"; WSelf "_intersections"]]).
+Proof. reflexivity. Qed.
+
+(* BaseSecondOrderMeasure._base_values *)
+Lemma gen_wiring_BaseSecondOrderMeasure__base_values :
+  wsrc_BaseSecondOrderMeasure__base_values = Some (WRaise "NotImplementedError").
+Proof. reflexivity. Qed.
+
+(* BaseSecondOrderMeasure._intersections *)
+Lemma gen_wiring_BaseSecondOrderMeasure__intersections :
+  wsrc_BaseSecondOrderMeasure__intersections = Some (WRaise "NotImplementedError").
+Proof. reflexivity. Qed.
+
+(* BaseSecondOrderMeasure._subtotal_columns *)
+Lemma gen_wiring_BaseSecondOrderMeasure__subtotal_columns :
+  wsrc_BaseSecondOrderMeasure__subtotal_columns = Some (WRaise "NotImplementedError").
+Proof. reflexivity. Qed.
+
+(* BaseSecondOrderMeasure._subtotal_rows *)
+Lemma gen_wiring_BaseSecondOrderMeasure__subtotal_rows :
+  wsrc_BaseSecondOrderMeasure__subtotal_rows = Some (WRaise "NotImplementedError").
+Proof. reflexivity. Qed.
+
+(* StripeBaseSecondOrderMeasure.base_values *)
+Lemma gen_wiring_StripeBaseSecondOrderMeasure_base_values :
+  wsrc_StripeBaseSecondOrderMeasure_base_values = Some (WRaise "NotImplementedError").
+Proof. reflexivity. Qed.
+
+(* StripeBaseSecondOrderMeasure.blocks *)
+Lemma gen_wiring_StripeBaseSecondOrderMeasure_blocks :
+  wsrc_StripeBaseSecondOrderMeasure_blocks = Some (WTuple [WSelf "base_values"; WSelf
+      "subtotal_values"]).
+Proof. reflexivity. Qed.
+
+(* StripeBaseSecondOrderMeasure.subtotal_values *)
+Lemma gen_wiring_StripeBaseSecondOrderMeasure_subtotal_values :
+  wsrc_StripeBaseSecondOrderMeasure_subtotal_values = Some (WRaise "NotImplementedError").
+Proof. reflexivity. Qed.
